@@ -11,6 +11,8 @@ Deciding monitors
                        separations 1e-3 .. 3.
 """
 
+import itertools
+
 import numpy as np
 import odl
 
@@ -215,6 +217,59 @@ def check(ctx, fname, sname, sp, f, tags, rng, ref=None):
         ctx.violation(comp, cfg, 'raises:' + type(e).__name__, message=str(e)[:300])
 
 
+def run_parent_immutability(ctx):
+    """Building a derived functional must not change the functional it is built from: f1 = w1(f0), f2 = w2(f1); after f2 exists
+    (and has been used) f1 and f0 still take their documented values and gradients.  Every ordered pair of wrappers."""
+    rng = ctx.rng('parent-immutability')
+    for sname, sp in (('rn5', odl.rn(5)), ('discr6', odl.uniform_discr(0, 3, 6))):
+        ws = functab._wrappers(sp, rng)
+        for (i1, mk1), (i2, mk2) in itertools.product(list(enumerate(ws)), repeat=2):
+            for bname, mkbase in (('L2sq', lambda: S.L2NormSquared(sp)), ('Huber', lambda: S.Huber(sp, 0.3))):
+                ctx.ev('documented-values')
+                try:
+                    w1, w2 = mk1(), mk2()
+                    f0 = mkbase()
+                    x = functab.rand_el(sp, rng)
+                    f1 = w1[1](f0)
+                    v1 = f1(x)
+                    g1 = util.to_cvec(sp, f1.gradient(x)).copy()
+                    v0 = f0(x)
+                    f2 = w2[1](f1)
+                    f2(x)
+                    try:
+                        f2.gradient(x)
+                        f2.proximal(0.7)(x)
+                    except Exception:
+                        pass
+                    f3 = w2[1](f2)        # a third level on top
+                    f3(x)
+                    ctx.case('parent-immutability;%s;%s' % (bname, sname), (w1[0], w2[0]))
+                    if not np.isclose(f1(x), v1, rtol=1e-13, atol=1e-13) or not np.allclose(util.to_cvec(sp, f1.gradient(x)), g1, rtol=1e-13, atol=1e-13):
+                        ctx.violation('derived-functional', '%s then %s' % (_wkind(w1[0]), _wkind(w2[0])), 'parent-changed-by-building-a-derived-functional',
+                                      parent='(%s)%s' % (bname, w1[0]), derived=w2[0], before=float(v1), after=float(f1(x)))
+                    if not np.isclose(f0(x), v0, rtol=1e-13, atol=1e-13):
+                        ctx.violation('derived-functional', '%s then %s' % (_wkind(w1[0]), _wkind(w2[0])), 'base-changed-by-building-a-derived-functional')
+                except (NotImplementedError, odl.OpNotImplementedError):
+                    pass
+                except Exception as e:
+                    ctx.violation('derived-functional', 'wrapper-pair', 'raises:' + type(e).__name__, message=str(e)[:200])
+
+
+def _wkind(name):
+    """Value-free wrapper kind from its display name ('2.5*', '*1.5', 'T', '+1.25', 'Q0.7l', '-(0.5*-)')."""
+    if name.endswith('*'):
+        return 'left-scaling'
+    if name.startswith('*'):
+        return 'right-scaling'
+    if name == 'T':
+        return 'translation'
+    if name.startswith('+'):
+        return 'constant'
+    if name.startswith('Q'):
+        return 'quadratic-perturbation'
+    return 'difference'
+
+
 def run_numerical_gradient(ctx):
     """NumericalGradient(f) is documented as the gradient w.r.t. the space's own inner product: for every weighting kind
     (none, constant, one weight per entry, cell volume) and every scheme <NumericalGradient(f)(x), d> must approximate the
@@ -276,5 +331,7 @@ def run(ctx):
         check(ctx, fname, sname, sp, f, tags, rng, ref)
     if ctx.shard == 0:
         run_numerical_gradient(ctx)
+    if ctx.shard == 1 % ctx.nshards:
+        run_parent_immutability(ctx)
     for m in ('gradient-vs-values', 'derivative-vs-gradient', 'documented-values', 'lipschitz-bound'):
         ctx.ev(m, 0)
